@@ -23,7 +23,10 @@ pub fn eval_stream(cw: &[u8], st: &mut Stats) -> Result<(), String> {
     let b = guarded(|| decode_str(cw)).map_err(|p| format!("decode_str: {}", p))?;
     match a {
         Ok(_) => st.count("decode_data_ok"),
-        Err(e) => st.distinct("decode_data_error_kinds", crate::explore::fnv64(format!("{:?}", std::mem::discriminant(&e)).as_bytes())),
+        Err(e) => {
+            st.count("nontrivial");
+            st.distinct("decode_data_error_kinds", crate::explore::fnv64(format!("{:?}", std::mem::discriminant(&e)).as_bytes()))
+        }
     }
     if b.is_ok() {
         st.count("decode_str_ok");
@@ -35,6 +38,9 @@ pub fn eval_rs(si: usize, recv: &[u8], st: &mut Stats) -> Result<(), String> {
     let mut cw = recv.to_vec();
     let r = guarded(|| decode_error(&mut cw, SIZES[si])).map_err(|p| format!("decode_error: {}", p))?;
     st.count(if r.is_ok() { "rs_ok" } else { "rs_err" });
+    if r.is_err() {
+        st.count("nontrivial");
+    }
     Ok(())
 }
 
@@ -46,7 +52,10 @@ pub fn eval_pixels(px: &[bool], width: usize, st: &mut Stats) -> Result<(), Stri
     }
     match b {
         Ok(_) => st.count("pixels_decoded"),
-        Err(e) => st.distinct("decode_error_kinds", crate::explore::fnv64(format!("{:?}", std::mem::discriminant(&e)).as_bytes())),
+        Err(e) => {
+            st.count("nontrivial");
+            st.distinct("decode_error_kinds", crate::explore::fnv64(format!("{:?}", std::mem::discriminant(&e)).as_bytes()))
+        }
     }
     Ok(())
 }
@@ -78,7 +87,6 @@ pub fn run(ctx: &Ctx) -> i32 {
                 w.check(3, || sdesc(&[a, b, d]), |st| eval_stream(&[a, b, d], st));
             }
         }
-        w.stats.count("nontrivial");
     });
     // A2: length 4..=5 (thorough 6) over the class alphabet
     let fam = Family::Over { alpha: CW24.to_vec(), min: 4, max: ctx.tier.pick(5, 6) };
@@ -92,7 +100,6 @@ pub fn run(ctx: &Ctx) -> i32 {
             w.sample(|| sdesc(&cw));
             w.check(cw.len() as u64, || sdesc(&cw), |st| eval_stream(&cw, st));
         }
-        w.stats.count("nontrivial");
     });
     // A3: all ECI designators [241, a, b, c, 66]
     ctx.par(256, |c, w| {
@@ -104,7 +111,6 @@ pub fn run(ctx: &Ctx) -> i32 {
                 w.check(5, || sdesc(&cw), |st| eval_stream(&cw, st));
             }
         }
-        w.stats.count("nontrivial");
     });
     // A4: every charset ECI followed by every byte carried in ASCII (upper shift) and in Base256
     ctx.par(64, |c, w| {
@@ -129,7 +135,6 @@ pub fn run(ctx: &Ctx) -> i32 {
                 w.check(6, || sdesc(&two), |st| eval_stream(&two, st));
             }
         }
-        w.stats.count("nontrivial");
     });
     // A5: single-codeword deviations of valid streams of the crate's own encoder
     let fam = Family::Over { alpha: gen::SIGMA10.to_vec(), min: 1, max: ctx.tier.pick(3, 4) };
@@ -160,7 +165,6 @@ pub fn run(ctx: &Ctx) -> i32 {
                 }
             }
         }
-        w.stats.count("nontrivial");
     });
     // B: error correction on words around and beyond the radius
     let jobs = c09::jobs(ctx.tier);
@@ -229,7 +233,6 @@ pub fn run(ctx: &Ctx) -> i32 {
                 w.check((si * 10 + 3) as u64, || json!({"kind": "pixels", "width": sy.cols, "bits": bits_str(&px)}), |st| eval_pixels(&px, sy.cols, st));
             }
         }
-        w.stats.count("nontrivial");
     });
     let mut cov = json!({
         "evaluations": ctx.evaluations(),
@@ -237,7 +240,7 @@ pub fn run(ctx: &Ctx) -> i32 {
         "rule": format!("decode_data + decode_str: all codeword strings of length <= 3 over all 256 values; length 4..={} over a 24-value class alphabet; all designators [241,a,b,c,66]; ECI 0..63 x every byte in ASCII/upper-shift and Base256 carriage; \
 every single-codeword replacement (24 class values) and every truncation of valid streams of the crate's encoder (sigma10 strings of length <= {} x 18 mode sets x FNC1). decode_error: the RS families of C09 on all 48 sizes. \
 try_from_bits + DataMatrix::decode: (width, length) lattice 0..=150 x 0..=150 with uniform contents; every single (and neighbouring double) module flip of a valid symbol of every size; garbage contents under a valid finder. \
-Oracle: returns a value or an error - no panic (catch_unwind), no hang (watchdog). distinct_nontrivial counts enumeration batches (each batch = thousands of distinct inputs). Build profile of this pass: {}.",
+Oracle: returns a value or an error - no panic (catch_unwind), no hang (watchdog). All cases are distinct by construction; non-trivial = the input is rejected with an error by at least one entry point (a genuinely malformed input that reached the error paths). Build profile of this pass: {}.",
             ctx.tier.pick(5, 6), ctx.tier.pick(3, 4), if cfg!(debug_assertions) { "release + debug-assertions + overflow-checks" } else { "plain release" }),
         "exhaustive": true,
     });
